@@ -210,6 +210,12 @@ impl StateRestorer {
 
     pub fn load_event_file(&mut self, path: &Path) -> crate::Result<()> {
         log::debug!("Loading event file {}", path.display());
+        if JournalReader::is_header_incomplete(path)? {
+            // The server was interrupted while it was creating the journal; nothing was recorded.
+            // Drop the partial header, the journal writer will start the file again.
+            self.truncate_size = Some(0);
+            return Ok(());
+        }
         let mut event_reader = JournalReader::open(path)?;
         for event in &mut event_reader {
             let event = event.map_err(|error| {
